@@ -269,14 +269,13 @@ def okFirstCodon (c : CDSIn) (starts : List (List Char)) (ans : Option Bool) : B
   | some [] => ans == some false
   | some (cod :: _) => ans == some (decide (cod ∈ starts))
 
-/-- last-codon predicate.  Without a complete codon there is no last codon: `false` and a documented refusal are
-    both accepted there. -/
+/-- last-codon predicate.  Without a complete codon there is no last codon: the answer is `false`. -/
 def okHasValidStop (c : CDSIn) (ans : Option Bool) : Bool :=
   match c.codonLetters with
   | none => ans.isNone
   | some cods =>
     match cods.getLast? with
-    | none => ans == some false || ans.isNone
+    | none => ans == some false
     | some cod => ans == some (isStop cod)
 
 /-- `has_in_frame_stop` is "the default (strict, ATG-start) translation has a `*` before its last letter" -/
